@@ -46,6 +46,8 @@ pub struct Server {
     paging_rng: Rng,
     last_emit_ms: u64,
     page_index: BTreeMap<String, usize>,
+    hostile_spliced: bool,
+    hold_until: u64,
 }
 
 pub fn request_token(op: &ReqOp) -> Option<String> {
@@ -89,6 +91,8 @@ impl Server {
             paging_rng: Rng::new(cookie_seed),
             last_emit_ms: 0,
             page_index: BTreeMap::new(),
+            hostile_spliced: false,
+            hold_until: 0,
         }
     }
 
@@ -295,7 +299,9 @@ impl Server {
     fn emit(&mut self, ix: usize) {
         // hostile splice
         if let Some(h) = &self.plan.hostile {
-            if h.before_emission == self.emitted {
+            if h.before_emission == self.emitted && !self.hostile_spliced {
+                self.hostile_spliced = true;
+                let gap = h.gap_after_ms;
                 let bytes = match h.nest {
                     Some((depth, id, in_controls)) => nested_frame(depth, id, in_controls),
                     None => h.bytes.clone(),
@@ -306,7 +312,19 @@ impl Server {
                     let e = w.pipe.s2c.len();
                     w.pipe.s2c_frames.push(e);
                     w.ev(EvKind::SrvEmit { emission: usize::MAX, id: -1, label: "hostile".into(), range: (s, e) });
+                    if let Some(wk) = w.pipe.net_waker.take() {
+                        wk.wake();
+                    }
                 });
+                if gap > 0 {
+                    // everything else is held back: the item is the last thing on the wire for a while
+                    let now = world::now_ms();
+                    self.hold_until = now + gap;
+                    self.last_emit_ms = now;
+                    self.qseq += 1;
+                    self.queue.push(Reverse((now, self.qseq, ix)));
+                    return;
+                }
             }
         }
         self.emitted += 1;
@@ -489,6 +507,7 @@ impl Future for Server {
             // 3. emit what is due
             let mut next = None;
             while let Some(&Reverse((at, _, ix))) = this.queue.peek() {
+                let at = at.max(this.hold_until);
                 if at <= now {
                     this.queue.pop();
                     this.emit(ix);
